@@ -159,7 +159,7 @@ impl Prop for C14 {
         "C14"
     }
     fn rule(&self) -> String {
-        "case = ((family, operator) uniform over the 21 operator impls that exist: PolyK{Mul,MulAssign,Neg,Add,Translate}, PolyN{Translate}, Log<PolyK>{Mul,MulAssign,Translate}, IntOfLog<PolyK>{Add,Mul,MulAssign,Neg,Translate}, IntOfLogPoly4{Mul,Neg,Add,&+&,Sub,&-&,Translate}; degree 0..=8 uniform (125 (impl,degree) instances); operands with pairwise distinct finite numbers over the full exponent range (tiny, huge, ±0) or moderate ones; scalar from {0,-0,±1,±2,1±ulp,tiny,huge,random}; 1 case in 8 has a random subset of the operands' numbers exactly zero; 1 translate case in 8 uses a constant of a quarter ulp to a few ulps of the additive constant). Oracle: every number of the result equals the single correctly rounded f64 operation on the corresponding input numbers (identical bits; the sign of a zero result is not pinned); translate changes only the additive constant; empty PolyN becomes [c]; `*=` equals `*`. Value clause for plain polynomials: result.evaluate(x) vs s·f(x), -f(x), f1(x)+f2(x), f(x)+c computed exactly from the inputs within the C01 bound plus one u per coefficient (when all terms are within 2^±900). Non-trivial: >=2 numbers per operand, pairwise distinct across operands (an index slip changes the result).".into()
+        "case = ((family, operator) uniform over the 21 operator impls that exist: PolyK{Mul,MulAssign,Neg,Add,Translate}, PolyN{Translate}, Log<PolyK>{Mul,MulAssign,Translate}, IntOfLog<PolyK>{Add,Mul,MulAssign,Neg,Translate}, IntOfLogPoly4{Mul,Neg,Add,&+&,Sub,&-&,Translate}; degree 0..=8 uniform (125 (impl,degree) instances); operands with pairwise distinct finite numbers over the full exponent range (tiny, huge, ±0) or moderate ones; scalar from {0,-0,±1,±2,1±ulp,tiny,huge,random}; 1 case in 8 has a random subset of the operands' numbers exactly zero; 1 translate case in 8 uses a constant of a quarter ulp to a few ulps of the additive constant; 1 case in 8 plants b_i = -a_i on a random subset; 1 case in 8 uses the scalar -c0, c0, 1/c0 or 2c0). Oracle: every number of the result equals the single correctly rounded f64 operation on the corresponding input numbers (identical bits; the sign of a zero result is not pinned); translate changes only the additive constant; empty PolyN becomes [c]; `*=` equals `*`. Value clause for plain polynomials: result.evaluate(x) vs s·f(x), -f(x), f1(x)+f2(x), f(x)+c computed exactly from the inputs within the C01 bound plus one u per coefficient (when all terms are within 2^±900). Non-trivial: >=2 numbers per operand, pairwise distinct across operands (an index slip changes the result).".into()
     }
     fn cases(&self, tier: Tier) -> u64 {
         tier.pick(1_500_000, 20_000_000)
@@ -182,6 +182,22 @@ impl Prop for C14 {
                         if (zmask >> (i % 32)) & 1 == 1 {
                             *v = 0.0;
                         }
+                    }
+                }
+                // exact relations between the two operands / the operand and the scalar
+                if zmode == 2 {
+                    // b_i = -a_i on a random subset (sums that cancel exactly in some positions but not in others)
+                    for i in 0..10 {
+                        if (zmask >> (i % 32)) & 1 == 1 {
+                            pool[10 + i] = -pool[i];
+                        }
+                    }
+                }
+                if zmode == 3 && pool[0] != 0.0 && pool[0].is_finite() {
+                    // scalar = -c0, c0, 1/c0, 2*c0 (e.g. translate by exactly the negated constant term)
+                    let t = [-pool[0], pool[0], 1.0 / pool[0], 2.0 * pool[0]][(absorb_m % 4) as usize];
+                    if t.is_finite() {
+                        s = t;
                     }
                 }
                 // translate by a constant at the absorption boundary of the additive constant:
